@@ -185,14 +185,107 @@ Spell(val, quote, style) == <<quote>> \o SpellBody(val, 1, quote, style) \o <<qu
 StrCases == {[kind |-> "str", a |-> <<vi, 0>>, u |-> Spell(StrValues[vi], qt, sty)] : vi \in 1..Len(StrValues), qt \in {34, 39}, sty \in {"raw", "x", "u", "b", "n", "i"}}
 NumCasesAll == UNION {{[kind |-> "num", a |-> <<vv[1], vv[2]>>, u |-> sp] : sp \in NumSpellings(vv[1], vv[2])} : vv \in (IF Quick THEN QuickNumValues ELSE NumValues)}
 
+\* ---------------- text families: comment / string / regex bodies enumerated over an alphabet ----
+\* The literal and comment tokens of the programs above have one fixed text each.  Here TLC chooses the TEXT: every
+\* body over a small alphabet of the characters that matter to a lexer (the comment and regex delimiters, both quotes,
+\* the backslash, a letter, a blank, the line terminators LF and CR), up to a bound.  A case is a token sequence with
+\* the holes "<L1>" "<L2>" and the code units that fill them (u / u2; u0 fills "<L1>" in the base rendering); "<+>"
+\* glues its neighbours (no blank).  The renderer substitutes and concatenates, nothing else.
+\*   47 /   42 *   39 '   34 "   92 \   110 n   32 blank   10 LF   13 CR   59 ;   91 [   93 ]
+AlphaFull == {47, 42, 39, 34, 92, 110, 32, 10, 13}
+CoreCmt   == {47, 42, 39, 110, 10}           \* longer bodies: delimiters, a quote, a letter, a line break
+CoreStr   == {39, 34, 92, 110, 10}
+CoreLine  == {47, 42, 39, 92, 110}
+SeqsLen(SS, kk)  == [1..kk -> SS]
+SeqsUpTo(SS, nn) == UNION {[1..kk -> SS] : kk \in 0..nn}
+HasSub2(us, c1, c2) == \E ui \in 1..(Len(us) - 1) : us[ui] = c1 /\ us[ui + 1] = c2
+NShort == IF Quick THEN 2 ELSE 3
+\* MultiLineComment: "/*" body "*/" where the body does not contain "*/" (so "/*/" is not a complete comment, "/***/" is)
+BlockBodies == {bd \in SeqsUpTo(AlphaFull, NShort) \cup SeqsLen(CoreCmt, NShort + 1) : ~HasSub2(bd, 42, 47)}
+BlockText(bd) == <<47, 42>> \o bd \o <<42, 47>>
+BlockOpen(bd) == <<47, 42>> \o bd                                  \* terminator deleted
+\* SingleLineComment: "//" body, ended by a line terminator (which is not part of it) or by the end of the input
+LineBodies == SeqsUpTo(AlphaFull \ {10, 13}, NShort) \cup SeqsLen(CoreLine, NShort + 1)
+LineText(bd, eof) == <<47, 47>> \o bd \o (IF eof THEN <<>> ELSE <<10>>)
+\* programs with one hole for the comment: after an operand (a "/" there would divide), after an operator (a "/" there
+\* would open a regex), at the start, at the very end, inside brackets, between two string literals, before / after a
+\* regex literal, and written without blanks around it
+CmtCtx == <<
+  <<"var", "r", "=", "a", "<L1>", "+", "b", ";", "r", ";">>,
+  <<"var", "r", "=", "a", "+", "<L1>", "b", ";", "r", ";">>,
+  <<"<L1>", "var", "r", "=", "a", "+", "b", ";", "r", ";">>,
+  <<"var", "r", "=", "a", "+", "b", ";", "r", ";", "<L1>">>,
+  <<"var", "r", "=", "[", "a", ",", "<L1>", "b", "]", ";", "r", ".", "length", ";">>,
+  <<"var", "r", "=", "<s1>", "<L1>", "+", "<s2>", ";", "r", ";">>,
+  <<"var", "r", "=", "<L1>", "<r1>", ".", "test", "(", "<s1>", ")", "<L1>", ";", "r", ";">>,
+  <<"var", "r", "=", "a", "<+>", "<L1>", "<+>", "+", "b", ";", "r", ";">>
+>>
+CmtEndCtx == 4
+CaseH(kd, ds, ts, uu, ub, uv) == [kind |-> kd, a |-> ds, toks |-> ts, u |-> uu, u0 |-> ub, u2 |-> uv]
+CmtCases(ci) ==
+  {CaseH("cmt", <<ci, 1>>, CmtCtx[ci], BlockText(bd), <<>>, <<>>) : bd \in BlockBodies}
+  \cup {CaseH("cmt", <<ci, 2>>, CmtCtx[ci], LineText(bd, FALSE), <<>>, <<>>) : bd \in LineBodies}
+  \cup (IF ci = CmtEndCtx THEN {CaseH("cmt", <<ci, 3>>, CmtCtx[ci], LineText(bd, TRUE), <<>>, <<>>) : bd \in LineBodies} ELSE {})
+  \cup (IF ~Quick \/ ci \in {1, 4, 6} THEN {CaseH("cdel", <<ci, 1>>, CmtCtx[ci], BlockOpen(bd), <<>>, <<>>) : bd \in BlockBodies} ELSE {})
+\* string literals: quote body quote for every body; StrLit decides whether the text is one well-formed literal (then the
+\* value is judged) or not (then it is a candidate for rejection: a raw line break or a bare quote inside, a
+\* backslash before the closing quote - decided on the rendered program by the lexical machine)
+StrBodies == SeqsUpTo(AlphaFull, NShort) \cup SeqsLen(CoreStr, NShort + 1)
+StrCtx == <<"var", "r", "=", "<L1>", ";", "r", ";">>
+StrBodyCases(qt) ==
+  {LET tx == <<qt>> \o bd \o <<qt>>  lit == StrLit(tx) IN
+   IF lit.ok THEN CaseH("strb", <<qt>>, <<>>, tx, Spell(lit.u, 39, "raw"), <<>>)
+   ELSE CaseH("sbad", <<qt>>, StrCtx, tx, <<>>, <<>>) : bd \in StrBodies}
+\* terminator deleted x what follows: the literal is cut off at the end of its line and a LATER line holds a quote of
+\* the same kind / a slash / a comment terminator (inside a comment, inside a literal of the other quote style, as a
+\* literal of its own), which a lexer that runs over the line break would pair with the opener
+OtherQuote(qt) == IF qt = 39 THEN 34 ELSE 39
+Followers == {<<>>} \cup UNION {{<<47, 47, 32, 110, qt, 110>>,                         \*  // n'n
+                                 <<47, 42, 32, qt, 32, 42, 47>>,                       \*  /* ' */
+                                 <<qt, 110, qt, 32, 59>>,                              \*  'n' ;
+                                 <<OtherQuote(qt), 110, qt, 110, OtherQuote(qt), 32, 59>>,   \*  "n'n" ;
+                                 <<47, qt, 47, 32, 59>>} : qt \in {39, 34}}           \*  /'/ ;
+\* <<unterminated text, terminated text, program>>
+Openers2 == {
+  <<<<39, 110>>, <<39, 110, 39>>, <<"var", "r", "=", "<L1>", ";", "<nl>", "<L2>", "<nl>", "r", ";">>>>,
+  <<<<34, 110, 32, 110>>, <<34, 110, 32, 110, 34>>, <<"var", "r", "=", "<L1>", ";", "<nl>", "<L2>", "<nl>", "r", ";">>>>,
+  <<<<47, 110, 91, 47, 93, 110>>, <<47, 110, 91, 47, 93, 110, 47>>,
+    <<"var", "r", "=", "<L1>", ".", "test", "(", "a", ")", ";", "<nl>", "<L2>", "<nl>", "r", ";">>>>,
+  <<<<47, 42, 32, 110>>, <<47, 42, 32, 110, 32, 42, 47>>, <<"var", "r", "=", "a", ";", "<L1>", "<nl>", "<L2>", "<nl>", "r", ";">>>>}
+UtCases == UNION {{CaseH("utdel", <<Len(fw)>>, opn[3], opn[1], <<>>, fw), CaseH("tprog", <<Len(fw)>>, opn[3], opn[2], <<>>, fw)} : opn \in Openers2, fw \in Followers}
+\* regular expression literals: bodies built from atoms (so that the pattern is well formed): a letter, an escaped
+\* slash / backslash / bracket, classes that contain a slash, a bracket, a star, the quotes, a quantified letter
+RxAtoms == {<<110>>, <<92, 47>>, <<91, 47, 93>>, <<91, 92, 93, 47, 93>>, <<92, 92>>, <<39>>, <<34>>, <<91, 42, 93>>, <<92, 91>>, <<110, 42>>}
+RxCtx == <<"var", "r", "=", "<L1>", ".", "test", "(", "<s1>", ")", ";", "r", ";">>
+RxCases ==
+  UNION {{CaseH("tprog", <<1>>, RxCtx, <<47>> \o a1 \o <<47>>, <<>>, <<>>),
+          CaseH("tprog", <<2>>, RxCtx, <<47>> \o a1 \o <<47, 103>>, <<>>, <<>>),             \* with a flag
+          CaseH("rxdel", <<1>>, RxCtx, <<47>> \o a1, <<>>, <<>>)} : a1 \in RxAtoms}
+  \cup UNION {{CaseH("tprog", <<3>>, RxCtx, <<47>> \o a1 \o a2 \o <<47>>, <<>>, <<>>),
+               CaseH("rxdel", <<2>>, RxCtx, <<47>> \o a1 \o a2, <<>>, <<>>),
+               CaseH("rxnl", <<10>>, RxCtx, <<47>> \o a1 \o <<10>> \o a2 \o <<47>>, <<>>, <<>>),       \* a line break inside
+               CaseH("rxnl", <<13>>, RxCtx, <<47>> \o a1 \o <<13>> \o a2 \o <<47>>, <<>>, <<>>)} : a1 \in RxAtoms, a2 \in RxAtoms}
+  \cup {CaseH("rxnl", <<92>>, RxCtx, <<47>> \o a1 \o <<92, 10>> \o <<47>>, <<>>, <<>>) : a1 \in RxAtoms}   \* backslash + line break
+\* concrete text with CR: a line terminator like LF for the lexical machine, and CR LF is ONE line terminator sequence
+\* (a backslash before it is a line continuation); line numbers are not judged here
+RECURSIVE UnitsXFrom(_, _)
+UnitsXFrom(us, ui) ==
+  IF ui > Len(us) THEN <<>>
+  ELSE IF us[ui] # 13 THEN <<us[ui]>> \o UnitsXFrom(us, ui + 1)
+  ELSE IF ui < Len(us) /\ us[ui + 1] = 10 THEN UnitsXFrom(us, ui + 1)
+  ELSE <<10>> \o UnitsXFrom(us, ui + 1)
+UnitsX(us) == IF \A ui \in 1..Len(us) : us[ui] # 13 THEN us ELSE UnitsXFrom(us, 1)
+ClassesOfUnitsX(us) == ClassesOfUnits(UnitsX(us))
+TextSupportedX(us) == TextSupported(UnitsX(us))
+
 \* ---------------- Enum -------------------------------------------------------------------------
 VARIABLES ph, cur, rec_i
 vars == <<ph, cur, rec_i>>
-NoCase == [kind |-> "none", a |-> <<>>, toks |-> <<>>, u |-> <<>>, u0 |-> <<>>]
-CaseT(kd, ds, ts) == [kind |-> kd, a |-> ds, toks |-> ts, u |-> <<>>, u0 |-> <<>>]
+NoCase == [kind |-> "none", a |-> <<>>, toks |-> <<>>, u |-> <<>>, u0 |-> <<>>, u2 |-> <<>>]
+CaseT(kd, ds, ts) == [kind |-> kd, a |-> ds, toks |-> ts, u |-> <<>>, u0 |-> <<>>, u2 |-> <<>>]
 CanonNum(kk, jj) == IF jj = 0 THEN DigitsOfN(kk) ELSE FixedText(kk * Pow5(jj), jj)
 CaseU(cs) == [kind |-> cs.kind, a |-> cs.a, toks |-> <<>>, u |-> cs.u,
-              u0 |-> IF cs.kind = "num" THEN CanonNum(cs.a[1], cs.a[2]) ELSE Spell(StrValues[cs.a[1]], 39, "raw")]
+              u0 |-> IF cs.kind = "num" THEN CanonNum(cs.a[1], cs.a[2]) ELSE Spell(StrValues[cs.a[1]], 39, "raw"), u2 |-> <<>>]
 EnumInit == ph = "start" /\ cur = NoCase /\ rec_i = 0
 \* two levels so that the successors are spread over the workers
 \* a run may enumerate only the trees whose root constructor lies in O1LO..O1HI (batches of the thorough tier);
@@ -201,7 +294,9 @@ EnvNat(nm, dflt) == IF nm \in DOMAIN IOEnv THEN (CHOOSE nn \in 0..999 : ToString
 O1Lo == EnvNat("O1LO", 1)
 O1Hi == LET hv == EnvNat("O1HI", NC) IN IF hv > NC THEN NC ELSE hv
 Groups == {<<"tree", o1>> : o1 \in O1Lo..O1Hi}
-          \cup (IF O1Lo = 1 THEN {<<"rej", 0>>, <<"unexp", 0>>, <<"lit", 0>>} \cup {<<"prog", pi>> : pi \in 1..Len(Progs)} ELSE {})
+          \cup (IF O1Lo = 1 THEN {<<"rej", 0>>, <<"unexp", 0>>, <<"lit", 0>>} \cup {<<"prog", pi>> : pi \in 1..Len(Progs)}
+                                  \cup {<<"cmt", ci>> : ci \in 1..Len(CmtCtx)} \cup {<<"strb", 39>>, <<"strb", 34>>, <<"ut", 0>>, <<"rx", 0>>}
+                ELSE {})
 EnumNext ==
   \/ /\ ph = "start"
      /\ \E gr \in Groups : ph' = "group" /\ cur' = [NoCase EXCEPT !.kind = gr[1], !.a = <<gr[2]>>]
@@ -224,6 +319,14 @@ EnumNext ==
            /\ \E cs \in NumCasesAll \cup StrCases : cur' = CaseU(cs)
         \/ /\ cur.kind = "prog"
            /\ \E cs \in ProgMutants(cur.a[1]) : cur' = CaseT(cs.kind, cs.a, cs.toks)
+        \/ /\ cur.kind = "cmt"
+           /\ \E cs \in CmtCases(cur.a[1]) : cur' = cs
+        \/ /\ cur.kind = "strb"
+           /\ \E cs \in StrBodyCases(cur.a[1]) : cur' = cs
+        \/ /\ cur.kind = "ut"
+           /\ \E cs \in UtCases : cur' = cs
+        \/ /\ cur.kind = "rx"
+           /\ \E cs \in RxCases : cur' = cs
 EnumEmit == ph # "case" \/ PrintT(ToJson(cur))
 
 \* ---------------- Laws (INVARIANT in the Enum configuration) -----------------------------------
@@ -252,6 +355,25 @@ Law(cs) ==
     [] cs.kind = "prog" -> Balanced(cs.toks)
     [] cs.kind = "pdelbr" -> ~Balanced(cs.toks)
     [] cs.kind = "pdelterm" -> TRUE                                       \* decided on the rendered text by LexerFSM (Judge)
+    \* text families: the chosen text is what its family says, for the lexical machine as well
+    [] cs.kind = "cmt" ->                                                 \* a comment: no token, no error
+         LET fsm == Lex(ClassesOfUnitsX(cs.u), FALSE, {}) IN TextSupportedX(cs.u) /\ fsm.err.k = "none" /\ fsm.out = <<>>
+    [] cs.kind = "cdel" -> Lex(ClassesOfUnitsX(cs.u), FALSE, {}).err.k = "unterminated-comment"
+    [] cs.kind = "strb" ->
+         LET lit == StrLit(cs.u)  fsm == Lex(ClassesOfUnitsX(cs.u), FALSE, {}) IN
+         /\ lit.ok /\ StrLit(cs.u0).ok /\ StrLit(cs.u0).u = lit.u            \* the canonical spelling denotes the same value
+         /\ TextSupportedX(cs.u) /\ fsm.err.k = "none" /\ Len(fsm.out) = 1 /\ fsm.out[1].k = "str"
+    [] cs.kind = "sbad" -> ~StrLit(cs.u).ok /\ TextSupportedX(cs.u)
+    [] cs.kind = "utdel" ->                                               \* cut off at the end of its line (comment: of the input)
+         LET fl == Lex(ClassesOfUnitsX(cs.u \o <<10>>), TRUE, {}) IN
+         fl.err.k \in {"unterminated-string", "unterminated-regex", "unterminated-comment"}
+    [] cs.kind = "tprog" ->                                               \* one literal token, or a comment
+         LET fsm == Lex(ClassesOfUnitsX(cs.u), TRUE, {}) IN
+         /\ TextSupportedX(cs.u) /\ fsm.err.k = "none"
+         /\ \/ fsm.out = <<>>
+            \/ Len(fsm.out) = 1 /\ fsm.out[1].k \in {"str", "regex"}
+    [] cs.kind = "rxdel" -> Lex(ClassesOfUnitsX(cs.u \o <<10>>), TRUE, {}).err.k = "unterminated-regex"
+    [] cs.kind = "rxnl" -> Lex(ClassesOfUnitsX(cs.u), TRUE, {}).err.k = "unterminated-regex"
     [] OTHER -> FALSE
 LawsHold == ph # "case" \/ Law(cur)
 
@@ -340,11 +462,11 @@ JudgeVariant(r) ==
 \* statement-level programs: text judged by the lexical machine and bracket balance
 KindsOf(toks) == [ti \in 1..Len(toks) |-> toks[ti].k]
 JudgeText(r) ==
-  IF ~TextSupported(r.u) THEN Unsup("text outside the class alphabet")
-  ELSE LET cls == ClassesOfUnits(r.u)
+  IF ~TextSupportedX(r.u) THEN Unsup("text outside the class alphabet")
+  ELSE LET cls == ClassesOfUnitsX(r.u)
            ref == Lex(cls, TRUE, {})
            malformed == ref.err.k # "none" \/ ~Balanced(KindsOf(ref.out)) IN
-       IF r.kind = "prog"
+       IF r.kind \in {"prog", "tprog"}
        THEN IF malformed THEN Unsup("valid program does not lex / balance")
             ELSE IF r.act.o = "tree" THEN Pass ELSE Mis("", "valid program rejected")
        ELSE IF ~malformed THEN [v |-> "notjudged", dev |-> "", why |-> "deletion healed"]
@@ -362,6 +484,19 @@ JudgeProgVariant(r) ==
   ELSE IF HasVTFF(r.lay) /\ r.ast1 = "syntax" THEN Mis("Dev_WhitespaceVTFF", "layout variant rejected")
   ELSE Mis("", "layout variant differs")
 
+\* a comment written into a program: the rendered texts (u0 base, u with the comment) must be the same tokens for the
+\* lexical machine (else the case is not what it claims: machinery), and the engine must read the same program
+JudgeCmt(r) ==
+  IF ~TextSupportedX(r.u) \/ ~TextSupportedX(r.u0) THEN Unsup("text outside the class alphabet")
+  ELSE LET lv == Lex(ClassesOfUnitsX(r.u), TRUE, {})
+           lb == Lex(ClassesOfUnitsX(r.u0), TRUE, {}) IN
+       IF lv.err.k # "none" \/ lb.err.k # "none" \/ KindsOf(lv.out) # KindsOf(lb.out) \/ ~Balanced(KindsOf(lb.out))
+       THEN Unsup("variant is not the base program plus a comment")
+       ELSE IF r.ast0 = r.ast1 /\ r.ast0 # "" /\ SameOutcome(r.ev0, r.ev1) THEN Pass
+       ELSE IF r.ast0 = "" \/ r.ast0 = "syntax" THEN Mis("", "valid program rejected")
+       ELSE IF r.ast1 = "syntax" THEN Mis("", "program with a comment rejected")
+       ELSE Mis("", "a comment changes the program")
+
 \* literal spellings: act = [o, v] value of the spelling, ev0 = value of the canonical spelling
 JudgeNum(r) ==
   LET lit == NumLit(r.u) IN
@@ -377,7 +512,9 @@ JudgeStr(r) ==
 Verdict(r) ==
   CASE r.kind \in {"tree", "rej", "unexp", "delbr"} -> JudgeTokens(r)
     [] r.kind = "variant" -> JudgeVariant(r)
-    [] r.kind \in {"prog", "pdelbr", "pdelterm"} -> JudgeText(r)
+    [] r.kind \in {"prog", "pdelbr", "pdelterm", "tprog", "cdel", "sbad", "utdel", "rxdel", "rxnl"} -> JudgeText(r)
+    [] r.kind = "cmt" -> JudgeCmt(r)
+    [] r.kind = "strb" -> JudgeStr(r)
     [] r.kind = "pvariant" -> JudgeProgVariant(r)
     [] r.kind = "num" -> JudgeNum(r)
     [] r.kind = "str" -> JudgeStr(r)
